@@ -334,7 +334,19 @@ def do_query(m, ref, medges, eid, sort_on, q, ctx, where):
         elems = fl if conv is None or form == "own-row" else [conv(x) for x in fl]
         fl = [int(x) for x in fl]
         args = face_id_args(form, elems, own_row, rnd)
-        ok, r = ctx.call(sig, C.face_id, *args)
+        if form == "unpacked":
+            ok, r = ctx.call(sig, C.face_id, *args)
+        else:
+            # the docstring documents unpacked integers only; one container / iterator is accepted through utils.keyify's one-argument
+            # branch. A library that REJECTS such a form (TypeError / ValueError) is within its rights - what it may not do is accept it
+            # and answer something else than the face list says.
+            try:
+                ok, r = True, C.face_id(*args)
+            except (TypeError, ValueError):
+                ctx.label("face_id:container-form-rejected")
+                return
+            except Exception:
+                ok, r = ctx.call(sig, C.face_id, *face_id_args(form, elems, own_row, rnd))
         if ok and form in REITERABLE_FORMS and rnd.randrange(3) == 0:
             # the very same container handed over a second time: it can be read as often as one likes, so the answer is the same
             ok, r2 = ctx.call(sig, C.face_id, *args)
